@@ -30,7 +30,9 @@ CFCR == R(9, 10)
 V0 == I(10)
 
 \* "advanced": a NEGATIVE C_Tc4 (legal in BADA data: the deration starts 5 K below ISA) at ISA temperature: 1 - 0.01 * 5
-Derate(sel) == CASE sel = "none" -> I(1) [] sel = "partial" -> R(9, 10) [] sel = "clipped" -> R(3, 5) [] sel = "cold" -> I(1) [] sel = "advanced" -> R(19, 20)
+\* "inverted": a NEGATIVE C_Tc5 counts as zero (BADA: C_Tc5 >= 0) - on a cold day (10 K below ISA) the product of the two
+\* negative numbers is no thrust loss
+Derate(sel) == CASE sel = "none" -> I(1) [] sel = "partial" -> R(9, 10) [] sel = "clipped" -> R(3, 5) [] sel = "cold" -> I(1) [] sel = "advanced" -> R(19, 20) [] sel = "inverted" -> I(1)
 
 Drag(c) == Add(Mul(Sq(c.v), CD0), Div(Mul(CD2, Sq(c.W)), Sq(c.v)))
 ThrustTE(c) == Add(Drag(c), Add(Div(Mul(c.W, c.rocd), c.v), Mul(c.W, c.a)))
@@ -64,7 +66,7 @@ Sgr(c) == Div(c.v, FuelFlow(c))
 PointCases == [eng : Engines, W : {I(600), I(1200)}, v : {I(10), I(20)},
                rocd : {I(-15), I(-5), I(0), I(5), I(40)}, a : {I(0), R(1, 10), R(-1, 5)},     \* (a strong deceleration makes the
                \* total-energy thrust negative in level flight and in climb as well)
-               hf : {I(0), R(1, 4), HPDES, R(1, 2)}, der : {"none", "partial", "clipped", "cold", "advanced"},
+               hf : {I(0), R(1, 4), HPDES, R(1, 2)}, der : {"none", "partial", "clipped", "cold", "advanced", "inverted"},
                cruise : BOOLEAN, ctcr : CTCRs]
 
 VARIABLES pcase, out, st
